@@ -806,19 +806,11 @@ def poscar(ctx):
         system = PoscarSys(atype, natypes, symbols)
         ev = SymEval(aliases)
         ev.text_mode = True
-        from ..symx import NP_FUNCS
         ev.globals = {}
-        old = NP_FUNCS.get('numpy.unique')
-        NP_FUNCS['numpy.unique'] = _np_unique
+        ev.np_override = {'numpy.unique': _np_unique}
         sc = sp.Symbol('scale', positive=True)
         try:
-            try:
-                paths = ev.run_fn(fn, [system], dict(header='HDR', symbols=given, coordstyle=style, box_scale=sc, float_format=FF))
-            finally:
-                if old is None:
-                    NP_FUNCS.pop('numpy.unique', None)
-                else:
-                    NP_FUNCS['numpy.unique'] = old
+            paths = ev.run_fn(fn, [system], dict(header='HDR', symbols=given, coordstyle=style, box_scale=sc, float_format=FF))
         except WouldRaise as e:
             ctx.ob('POSCAR', loc, '%s: the writer runs to completion' % tag, False, str(e), node=fn, key=tag + ' runs')
             continue
